@@ -15,6 +15,10 @@ What is translated (ordinary T1 translator; `py2lean.py` itself is unchanged):
                              (closed forms; the two Newton branches return a solver parameter)
   market/volatility/fx_vol_surface_plus.py   _g, the ATM-strike chain of FXVolSurfacePlus._build_vol_surface, the
                              residual arithmetic of _obj (weights 1, 1-alpha, alpha)
+  models/sabr.py, sabr_shifted.py   the nested objective `fn` of set_alpha_from_black_vol (model vol as a parameter); the
+                             text around it is pinned (guard, bounds, `alpha = results.x[0]` stored unconditionally)
+  market/volatility/{fx_vol_surface, fx_vol_surface_plus, equity_vol_surface, swaption_vol_surface}.py
+                             vol_function -> dispatch table VolFuncTypes code -> family id (`vol_dispatch_*`)
 
 Source-to-source preparation (each refuses anything it does not recognise -> Untranslatable -> broken obligation):
   * `params[i]` with a literal i -> scalar parameter `p<i>`; `len(params)` -> the parameter count the builders use
@@ -43,8 +47,10 @@ FXV_PY = 'financepy/products/fx/fx_vanilla_option.py'
 FXC_PY = 'financepy/products/fx/fx_mkt_conventions.py'
 FXS_PY = 'financepy/market/volatility/fx_vol_surface.py'
 FXP_PY = 'financepy/market/volatility/fx_vol_surface_plus.py'
+EQS_PY = 'financepy/market/volatility/equity_vol_surface.py'
+SWS_PY = 'financepy/market/volatility/swaption_vol_surface.py'
 
-SOURCES = [VFN_PY, SABR_PY, SABRS_PY, MATH_PY, BSA_PY, FXV_PY, FXC_PY, FXS_PY, FXP_PY, GT_PY, GV_PY]
+SOURCES = [VFN_PY, SABR_PY, SABRS_PY, MATH_PY, BSA_PY, FXV_PY, FXC_PY, FXS_PY, FXP_PY, GT_PY, GV_PY, EQS_PY, SWS_PY]
 
 
 # ----------------------------------------------------------------------------------------- AST preparation
@@ -242,6 +248,99 @@ def cubic_coeffs(P, fnode, pre_ok):
     return g
 
 
+def strike_objective(P, fnode, attr):
+    """SABR / SABRShifted.set_alpha_from_black_vol: the nested objective `fn(x)` handed to L-BFGS-B, with the model's vol at x
+    (`self.black_vol_with_alpha(x, f, k, t_exp)`, i.e. the generated Hagan formula at alpha = x) as a parameter.  The text
+    around it is pinned: the solve is guarded by `init_alpha != black_vol` and nothing else, the optimiser's `results.x[0]`
+    is stored unconditionally (no look at `results.success` / `results.fun` — the silent-failure clause stays a finding)."""
+    body = [s for s in fnode.body if not (isinstance(s, ast.Expr) and isinstance(s.value, ast.Constant))]
+    ifs = [s for s in body if isinstance(s, ast.If)]
+    if len(ifs) != 1 or ast.unparse(ifs[0].test) != 'init_alpha != black_vol':
+        raise P.Untranslatable('single-strike alpha solve: the guard is not exactly `if init_alpha != black_vol:` '
+                               + ' | '.join(ast.unparse(s.test) for s in ifs)[:200])
+    if [ast.unparse(s) for s in ifs[0].orelse] != ['alpha = init_alpha']:
+        raise P.Untranslatable('single-strike alpha solve: else-branch is not `alpha = init_alpha`')
+    if ast.unparse(body[-1]) != f'self.{attr} = alpha' or body[-2] is not ifs[0]:
+        raise P.Untranslatable('single-strike alpha solve: the statement after the solve is not `self.%s = alpha`' % attr)
+    inner = ifs[0].body
+    fns = [s for s in inner if isinstance(s, ast.FunctionDef) and s.name == 'fn']
+    rest = [ast.unparse(s) for s in inner if not (isinstance(s, ast.FunctionDef) and s.name == 'fn')]
+    want = ['bnds = ((0.0, None),)', 'x0 = init_alpha',
+            "results = minimize(fn, x0, method='L-BFGS-B', bounds=bnds, tol=1e-08)", 'alpha = results.x[0]']
+    if len(fns) != 1 or rest != want:
+        raise P.Untranslatable('single-strike alpha solve: body of the solve branch changed: ' + ' | '.join(rest)[:300])
+    fn = copy.deepcopy(fns[0])
+    if [a.arg for a in fn.args.args] != ['x'] or len(fn.body) != 1 or not isinstance(fn.body[0], ast.Return):
+        raise P.Untranslatable('single-strike alpha solve: fn is not `def fn(x): return <expr>`')
+    hits = [0]
+
+    class R(ast.NodeTransformer):
+        def visit_Call(self, node):
+            self.generic_visit(node)
+            if ast.unparse(node.func) == 'self.black_vol_with_alpha':
+                if len(node.args) != 4 or ast.unparse(node.args[0]) != 'x':
+                    raise P.Untranslatable('single-strike alpha solve: black_vol_with_alpha not called at x')
+                hits[0] += 1
+                return ast.copy_location(ast.Name(id='model_vol', ctx=ast.Load()), node)
+            return node
+    fn = R().visit(fn)
+    if hits[0] != 1:
+        raise P.Untranslatable('single-strike alpha solve: fn does not call self.black_vol_with_alpha exactly once')
+    for x in ast.walk(fn.body[0]):
+        if isinstance(x, ast.Name) and x.id not in ('black_vol', 'model_vol', 'np'):
+            raise P.Untranslatable('single-strike alpha solve: fn reads ' + x.id)
+    fn.args = ast.arguments(posonlyargs=[], args=[ast.arg(arg='black_vol'), ast.arg(arg='model_vol')], kwonlyargs=[],
+                            kw_defaults=[], defaults=[])
+    ast.fix_missing_locations(fn)
+    return fn
+
+
+FAMILY_ID = {'vol_function_clark': 1, 'vol_function_sabr': 2, 'vol_function_sabr_beta_one': 3, 'vol_function_sabr_beta_half': 4,
+             'vol_function_bloomberg': 5, 'vol_function_svi': 6, 'vol_function_ssvi': 7}
+
+
+def dispatch_table(P, fnode):
+    """`vol_function(vol_function_type_value, params, ..., f, k, t)` of a surface module as a table code -> family id:
+    every `vol = vol_function_X(params, f, k, t) [+ gap_k]; return vol` becomes `return FAMILY_ID[X]`, `return 0.0` becomes
+    `return 0` (the function returns the CONSTANT vol 0.0 for that code), `raise FinError` stays.  The strike-gap prologue of
+    fx_vol_surface_plus (`if len(strikes) == 1: gap_k = 0.0 else: gap_k = _interpolate_gap(...)`) is dropped; anything else
+    is refused."""
+    def leaf(stmts):
+        if len(stmts) == 2 and isinstance(stmts[0], ast.Assign) and isinstance(stmts[1], ast.Return) \
+                and ast.unparse(stmts[0].targets[0]) == 'vol' and ast.unparse(stmts[1].value) == 'vol':
+            v = stmts[0].value
+            if isinstance(v, ast.BinOp) and isinstance(v.op, ast.Add) and ast.unparse(v.right) == 'gap_k':
+                v = v.left
+            if isinstance(v, ast.Call) and isinstance(v.func, ast.Name) and v.func.id in FAMILY_ID \
+                    and [ast.unparse(a) for a in v.args] == ['params', 'f', 'k', 't']:
+                return [ast.Return(value=ast.Constant(value=FAMILY_ID[v.func.id]))]
+        raise P.Untranslatable('vol_function dispatch: unexpected branch body ' + ' ; '.join(ast.unparse(x) for x in stmts)[:120])
+
+    def go(stmts):
+        out = []
+        for st in stmts:
+            if isinstance(st, ast.Expr) and isinstance(st.value, ast.Constant):
+                continue
+            if isinstance(st, ast.If) and ast.unparse(st.test) == 'len(strikes) == 1':
+                continue
+            if isinstance(st, ast.If):
+                if not ast.unparse(st.test).startswith('vol_function_type_value == VolFuncTypes.'):
+                    raise P.Untranslatable('vol_function dispatch: unexpected test ' + ast.unparse(st.test)[:80])
+                out.append(ast.If(test=st.test, body=leaf(st.body), orelse=go(st.orelse)))
+            elif isinstance(st, ast.Raise):
+                out.append(st)
+            elif isinstance(st, ast.Return) and ast.unparse(st.value) == '0.0':
+                out.append(ast.Return(value=ast.Constant(value=0)))
+            else:
+                raise P.Untranslatable('vol_function dispatch: unexpected statement ' + ast.unparse(st)[:80])
+        return out
+    g = copy.deepcopy(fnode)
+    g.body = go(g.body)
+    g.args = ast.arguments(posonlyargs=[], args=[ast.arg(arg='vol_function_type_value')], kwonlyargs=[], kw_defaults=[], defaults=[])
+    ast.fix_missing_locations(g)
+    return g
+
+
 def newton_to_param(P, fnode, pname):
     """`if c: argtuple = (...); K = newton_secant(...); return K` -> `if c: return <pname>`."""
     n = [0]
@@ -382,6 +481,10 @@ def build_vol(kind):
                            attr_map={'self.beta': ('beta', NUM), 'self.rho': ('rho', NUM), 'self.nu': ('nu', NUM)},
                            extra_params=[('beta', NUM), ('rho', NUM), ('nu', NUM)],
                            doc='coefficients (coeff3, coeff2, coeff1, coeff0) handed to np.roots'), register='sabr_atm_cubic')
+        emit(strike_objective(P, find_function(st_, 'SABR.set_alpha_from_black_vol'), 'alpha'),
+             FuncSpec('SABR.set_alpha_from_black_vol.fn', 'sabr_strike_objective', [('black_vol', NUM), ('model_vol', NUM)], NUM,
+                      doc='objective of the single-strike alpha solve; model_vol = self.black_vol_with_alpha(x, f, k, t_exp)'),
+             register='sabr_strike_objective')
         ss = S.parse(SABRS_PY)
         # the shifted module has its own copy of _x: must be the same text
         if ast.unparse(find_function(ss, '_x')).split('"""')[-1] != ast.unparse(find_function(st_, '_x')).split('"""')[-1]:
@@ -394,6 +497,10 @@ def build_vol(kind):
                            attr_map={'self._beta': ('beta', NUM), 'self._rho': ('rho', NUM), 'self._nu': ('nu', NUM),
                                      'self._shift': ('shift', NUM)},
                            extra_params=[('beta', NUM), ('rho', NUM), ('nu', NUM), ('shift', NUM)]), register='sabr_shifted_atm_cubic')
+        emit(strike_objective(P, find_function(ss, 'SABRShifted.set_alpha_from_black_vol'), '_alpha'),
+             FuncSpec('SABRShifted.set_alpha_from_black_vol.fn', 'sabr_shifted_strike_objective',
+                      [('black_vol', NUM), ('model_vol', NUM)], NUM,
+                      doc='objective of the single-strike alpha solve (shifted SABR)'), register='sabr_shifted_strike_objective')
 
         # ---- FX delta conventions
         ft = S.parse(FXV_PY)
@@ -434,6 +541,13 @@ def build_vol(kind):
             emit(tail, FuncSpec(objname, 'objective_tail' + lean_sfx, [(n, NUM) for n in params], NUM,
                                 doc='residual arithmetic of the calibration objective; vol_function / bs_value / strike-solver '
                                     'results are parameters'), register='objective_tail' + lean_sfx)
+
+        # ---- family dispatch tables of the four surface modules
+        for path, sfx in ((FXS_PY, 'fx'), (FXP_PY, 'fx_plus'), (EQS_PY, 'equity'), (SWS_PY, 'swaption')):
+            emit(dispatch_table(P, find_function(S.parse(path), 'vol_function')),
+                 FuncSpec('vol_function', 'vol_dispatch_' + sfx, [('vol_function_type_value', INT)], INT,
+                          doc='family id per VolFuncTypes code: 1 clark, 2 sabr, 3 sabr_beta_one, 4 sabr_beta_half, 5 bloomberg, '
+                              '6 svi, 7 ssvi; 0 = the constant 0.0'), register='vol_dispatch_' + sfx)
 
         ns = 'VolF' if kind == 'float' else 'VolR'
         body = prelude(ns, kind) + '\n'.join(out) + f'\nend FinVerif.Gen.{ns}\n'
